@@ -33,13 +33,14 @@ RULE = (
   "undelayed twin; distinct = hash of the configuration"
 )
 BOUNDS = {
-  "quick": "L=6 (729 worlds, 1093 words per configuration), nsample in {1,2,3,4}, 6 starts, 4 sensor types: 24 actuator + 96 sensor configurations",
-  "thorough": "L=7 (2187 worlds, 3280 words per configuration), nsample in {1,2,3,4,5}, 6 starts, 4 sensor types",
+  "quick": "L=6 (729 worlds, 1093 words per configuration), nsample in {1,2,3,4}, 7 starts, 4 sensor types: 28 actuator + 112 sensor configurations",
+  "thorough": "L=7 (2187 worlds, 3280 words per configuration), nsample in {1,2,3,4,5}, 7 starts, 4 sensor types",
 }
 ASSUMPTIONS = [
   "MuJoCo C 3.13 is the reference (mj_step, mj_makeData, mj_resetData, mj_readCtrl, mj_readSensor, mj_initCtrlHistory, mj_initSensorHistory)",
-  "timestep is a power of two (VERIF_SEED mod 4 selects 1/128, 1/256, 1/64, 1/512) and delays/intervals/phases are dyadic multiples of it, so "
-  "that every timestamp and every time comparison is exact in float32 and float64 alike: a deviation is a logic error, not round-off",
+  "VERIF_SEED mod 4 selects the timestep 1/128, 1/256, 1/64 (powers of two; delays/intervals/phases are dyadic multiples, so every timestamp and "
+  "every time comparison is exact in float32 and float64 alike: a deviation is a logic error, not round-off) or 0.002 (a realistic non-dyadic "
+  "step: float32 time round-off is in play; calibrated silent on the on-grid configurations for L<=7)",
   "worlds of one batched Data are independent (that is property C09); the batch is only a way to run all words",
   "values compared under class f32 (2e-5*(1+max|ref|)); timestamps/user slot under absolute 2e-5*(1+|t|); cursor exactly",
   "actuator k receives ALPH[(symbol+k) mod 3] so that neighbouring buffers never hold the same sequence (a bijection of the word set per actuator)",
@@ -47,9 +48,9 @@ ASSUMPTIONS = [
 BUDGET = {"quick": 600, "thorough": 3400}
 
 ALPH = (0.0, 1.0, -0.5)
-TIMESTEPS = (1.0 / 128, 1.0 / 256, 1.0 / 64, 1.0 / 512)
+TIMESTEPS = (1.0 / 128, 1.0 / 256, 1.0 / 64, 0.002)
 INTERPS = ("zoh", "linear", "cubic")
-STARTS = ("make", "put0", "put", "reset", "init_t", "init_none")
+STARTS = ("make", "put0", "put", "reset", "init_t", "init_ahead", "init_none")
 SENSOR_TYPES = ("actuatorfrc", "jointpos", "jointvel", "framepos")
 INTERVALS = (None, (2.0, 0.0), (2.0, -0.5), (2.5, 0.0), (2.5, -0.75))  # (period, phase) in units of h
 DIRTY = (0.7, -0.3, 0.4, -0.9, 0.2)
@@ -84,9 +85,9 @@ def act_configs(n):
   cfgs = []
   for du in (1.0, 2.5, 3.0, n + 1.5):
     for ip in INTERPS:
-      cfgs.append(dict(kind="motor", delay=du, interp=ip, n=n, cls=f"delay={'gtspan' if du > 3 else du}h:interp={ip}"))
+      cfgs.append(dict(kind="motor", delay=du, interp=ip, n=n, cls=f"delay={'gtspan' if du > 3 else f'{du}h'}"))
   cfgs.append(dict(kind="motor", delay=0.0, interp="linear", n=n, cls="historyonly"))
-  cfgs.append(dict(kind="integrator", delay=2.0, interp="linear", n=n, cls="integrator:delay=2.0h:interp=linear"))
+  cfgs.append(dict(kind="integrator", delay=2.0, interp="linear", n=n, cls="integrator:delay=2.0h"))
   cfgs.append(dict(kind="motor", delay=0.0, interp="zoh", n=0, cls="plain"))
   return cfgs
 
@@ -97,7 +98,9 @@ def sens_configs(n):
     for iv in INTERVALS:
       for ip in INTERPS:
         ivs = "none" if iv is None else f"{iv[0]}h" + ("" if iv[1] == 0 else f"_phase{iv[1]}h")
-        cfgs.append(dict(delay=du, interval=iv, interp=ip, n=n, cls=f"delay={'gtspan' if du > 3 else du}h:interval={ivs}:interp={ip}"))
+        # grid=off: the ideal sample times phase - k*period do not fall on multiples of the timestep
+        grid = "na" if iv is None else ("on" if float(iv[0]).is_integer() and float(iv[1]).is_integer() else "off")
+        cfgs.append(dict(delay=du, interval=iv, interp=ip, n=n, cls=f"delay={'gtspan' if du > 3 else f'{du}h'}:interval={ivs}:grid={grid}"))
   cfgs.append(dict(delay=0.0, interval=None, interp="zoh", n=0, cls="plain"))
   return cfgs
 
@@ -263,10 +266,21 @@ def read_labels(fam, elems, qs, h):
 # ------------------------------------------------------------------------------------- starts
 
 
-def _init_args(e, t0, h, with_times):
-  """Custom buffer contents for init_*_history (same on both sides)."""
+def _init_args(e, t0, h, mode):
+  """Custom buffer contents for init_*_history (same on both sides).
+
+  init_t: past samples 1.5h apart, newest at t0-0.25h.  init_ahead: the buffer reaches into the future, so that the
+  next inserts are not appends: even elements get samples 1.5h apart with the newest at t0+h (insert at t0 falls between
+  two samples: out-of-order insert, or replace-oldest for nsample=1), odd elements samples h apart with the newest at
+  t0+h (inserts at t0 and t0+h hit existing timestamps exactly).  init_none: times=None.
+  """
   n = e.n
-  times = np.array([t0 - 0.25 * h - (n - 1 - i) * 1.5 * h for i in range(n)]) if with_times else None
+  if mode == "init_t":
+    times = np.array([t0 - 0.25 * h - (n - 1 - i) * 1.5 * h for i in range(n)])
+  elif mode == "init_ahead":
+    times = np.array([t0 + h - (n - 1 - i) * (1.5 * h if e.idx % 2 == 0 else h) for i in range(n)])
+  else:
+    times = None
   vals = np.array([[0.25 * (i + 1) + 0.125 * j - 0.0625 * e.idx for j in range(e.dim)] for i in range(n)])
   phase = t0 - 0.75 * h
   return times, vals, phase
@@ -284,15 +298,15 @@ def mj_start(mujoco, scn, mjm, elems, h):
       mjd.ctrl[:] = DIRTY[k]
       mujoco.mj_step(mjm, mjd)
     mujoco.mj_resetData(mjm, mjd)
-  elif st in ("init_t", "init_none"):
-    if st == "init_t":
+  elif st.startswith("init"):
+    if st != "init_none":
       for k in range(2):
         mjd.ctrl[:] = DIRTY[k]
         mujoco.mj_step(mjm, mjd)
     for e in elems:
       if e.n == 0:
         continue
-      times, vals, phase = _init_args(e, mjd.time, h, st == "init_t")
+      times, vals, phase = _init_args(e, mjd.time, h, st)
       if scn["fam"] == "act":
         mujoco.mj_initCtrlHistory(mjm, mjd, e.idx, times, vals[:, 0].copy())
       else:
@@ -314,8 +328,8 @@ def mjw_start(wp, mjw, scn, mjm, m, mjd0, elems, h, W):
       util.set_field(d.ctrl, (np.full((W, nu), DIRTY[k]) + 0.01 * (np.arange(W) % 7)[:, None]).astype(np.float32))
       mjw.step(m, d)
     mjw.reset_data(m, d)
-  elif st in ("init_t", "init_none"):
-    if st == "init_t":
+  elif st.startswith("init"):
+    if st != "init_none":
       for k in range(2):
         util.set_field(d.ctrl, np.full((W, mjm.nu), DIRTY[k], np.float32))
         mjw.step(m, d)
@@ -323,7 +337,7 @@ def mjw_start(wp, mjw, scn, mjm, m, mjd0, elems, h, W):
     for e in elems:
       if e.n == 0:
         continue
-      times, vals, phase = _init_args(e, t0, h, st == "init_t")
+      times, vals, phase = _init_args(e, t0, h, st)
       tw = None if times is None else wp.array(times.astype(np.float32), dtype=float)
       vw = wp.array(np.tile(vals.reshape(1, -1), (W, 1)).astype(np.float32), dtype=float)
       if scn["fam"] == "act":
@@ -345,8 +359,8 @@ def mujoco_fresh(mjm):
 class Collector:
   """Violations keyed by class; one representative (simplest word first) per vkey."""
 
-  def __init__(self, pre, digits):
-    self.pre, self.digits, self.v, self.nchecked, self.maxerr = pre, digits, {}, 0, 0.0
+  def __init__(self, pre, digits, tag=""):
+    self.pre, self.digits, self.tag, self.v, self.nchecked, self.maxerr = pre, digits, tag, {}, 0, 0.0
 
   def block(self, depth, field, got, want, labels, elems, tol_rel, scale_mode):
     """got/want: [W, K]; labels: per column (element idx, sublabel)."""
@@ -380,23 +394,24 @@ class Collector:
     for cidx in cols:
       ei, sub = labels[cidx]
       cls = elems[ei].cls
-      key = f"{field}:{cls}" + (f":{sub}" if sub and field.startswith("read") else "")
+      # interpolation order is part of the class only where it can matter (values read back), not for buffer bookkeeping
+      key = f"{field}:{cls}" + ("" if field.startswith("history") or field == "time" else f":interp={elems[ei].cfg['interp']}")
       if key in seen:
         continue
       seen.add(key)
       w = int(np.nonzero(bad[:, cidx])[0][0])
       self._add(
         key,
-        f"depth {depth} word {word_str(self.digits[w], depth)} {field}[{sub}] element {ei} ({cls}): got {got[w, cidx]:.7g} want {want[w, cidx]:.7g} "
+        f"depth {depth} word {word_str(self.digits[w], depth)} {field}[{sub}] element {ei} ({cls}, interp={elems[ei].cfg['interp']}): got {got[w, cidx]:.7g} want {want[w, cidx]:.7g} "
         f"({int(bad[:, cidx].sum())} of {bad.shape[0]} worlds)",
       )
 
   def _add(self, key, what):
     k = self.pre + key
     if k not in self.v:
-      self.v[k] = dict(vkey=k, what=what)
+      self.v[k] = dict(vkey=k, what=self.tag + what)
 
-  def violations(self, cap=16):
+  def violations(self, cap=60):
     return list(self.v.values())[:cap]
 
 
@@ -425,8 +440,8 @@ def execute(scn):
   nu = mjm.nu
   digits = word_digits(L)
   W = digits.shape[0]
-  pre = f"{fam}:" + (f"{scn['typ']}:" if fam == "sens" else "") + f"n={scn['n']}:start={scn['start']}:"
-  col = Collector(pre, digits)
+  pre = f"{fam}:start={scn['start']}:"
+  col = Collector(pre, digits, tag=(f"{scn['typ']} sensors " if fam == "sens" else "") + f"nsample={scn['n']} h={h}: ")
 
   # ---- reference: MuJoCo C on the prefix tree
   mjd0 = mj_start(mujoco, scn, mjm, elems, h)
@@ -533,7 +548,7 @@ def _init_per_world(mujoco, wp, mjw, scn, mjm, m, elems, h, col, hist_cols, hist
   for e in elems:
     if e.n == 0:
       continue
-    times, vals, phase = _init_args(e, t0, h, True)
+    times, vals, phase = _init_args(e, t0, h, "init_t")
     vs = [vals * (1.0 + 0.5 * w) - 0.125 * w for w in range(NW)]
     ph = [phase - 0.25 * h * w for w in range(NW)]
     tw = wp.array(times.astype(np.float32), dtype=float)
@@ -548,7 +563,7 @@ def _init_per_world(mujoco, wp, mjw, scn, mjm, m, elems, h, col, hist_cols, hist
         mujoco.mj_initSensorHistory(mjm, mjds[w], e.idx, times, np.ascontiguousarray(vs[w]), ph[w])
   H = d.history.numpy()
   Hw = np.array([x.history for x in mjds])
-  sub = Collector(col.pre + "perworld:", np.zeros((NW, 0), int))
+  sub = Collector(col.pre + "perworld:", np.zeros((NW, 0), int), tag=col.tag)
   for kk, (fname, mode) in enumerate((("history.user", "abs"), ("history.cursor", "exact"), ("history.times", "abs"), ("history.values", "f32"))):
     cc = hist_cols[kk]
     sub.block(0, fname, H[:, cc], Hw[:, cc], hist_labels[kk], elems, 2e-5, mode)
